@@ -68,7 +68,6 @@ impl AggregateOperator for Sorter {
     }
 
     fn process(&mut self, row: Row) {
-        let order = &self.ordering;
         match row {
             Row::Aggregate(agg) => {
                 self.columns = agg.columns;
@@ -76,9 +75,9 @@ impl AggregateOperator for Sorter {
             }
             Row::Record(rec) => {
                 let new_cols = self.new_columns(&rec.data);
+                // emit() sorts the rows; re-sorting here on every record made sorting a stream
+                // of n records cost n full sorts.
                 self.state.push(rec.data);
-                self.state
-                    .sort_by(|l, r| ((order)(l, r)).unwrap_or(Ordering::Less));
                 self.columns.extend(new_cols);
             }
         }
